@@ -72,12 +72,12 @@ func deriveRuns(thorough bool) []hrun {
 }
 
 var c02ids = []string{"inline-confined", "inline-columns-are-query-fields", "inline-strings-are-query-values", "param-confined",
-	"param-columns-are-query-fields", "ident-confined", "ident-is-the-name", "ident-nonempty", "ident-param-confined", "ident-param-is-the-name", "ident-same-outcome", "value-confined", "value-param-confined"}
-var c03ids = []string{"fragment-renders", "sql-means-query", "inline-numbers-are-query-values"}
+	"param-columns-are-query-fields", "ident-confined", "ident-is-the-name", "ident-nonempty", "ident-param-confined", "ident-param-is-the-name", "ident-same-outcome", "value-confined", "value-param-confined", "quoted-sql-shape", "quoted-sql-constant-verbatim"}
+var c03ids = []string{"fragment-renders", "sql-means-query", "sql-well-typed", "inline-numbers-are-query-values"}
 var c04ids = []string{"inline-ok-implies-param-ok", "param-count", "param-no-inline-values", "param-values-in-order", "param-substitution-equals-inline",
 	"param-means-inline", "same-outcome-for-same-kinds", "sql-text-independent-of-values", "param-count-independent-of-values", "value-param-confined", "value-param-equals-inline-constant"}
 
-const nSQLForms = 49
+const nSQLForms = 54
 
 func sqlRuns(thorough bool, concrete int) []hrun {
 	var r []hrun
@@ -109,6 +109,24 @@ func identRuns(thorough bool) []hrun {
 	return r
 }
 
+// quotedValueRuns (C02): every string constant is a value of the query, for quoted values of
+// arbitrary bytes (the assertions are C08's quoting clause, read for confinement).
+func quotedValueRuns(thorough bool) []hrun {
+	r := []hrun{{Harness: "QuoteVerbatim", Params: P("N", 1)}, {Harness: "QuoteVerbatim", Params: P("N", 2)}, {Harness: "QuoteVerbatim", Params: P("N", 3)}}
+	if thorough {
+		r = append(r, hrun{Harness: "QuoteVerbatim", Params: P("N", 4)})
+	}
+	return r
+}
+
+// identOutcomeRuns (C04): field names with arbitrary bytes render in both modes or in neither.
+func identOutcomeRuns() []hrun {
+	return []hrun{
+		{Harness: "IdentConfined", Params: P("MODE", 0, "UNITS", 2)}, {Harness: "IdentConfined", Params: P("MODE", 0, "UNITS", 2, "TAIL", 1)}, {Harness: "IdentConfined", Params: P("MODE", 0, "UNITS", 2, "TAIL", 4)},
+		{Harness: "IdentConfined", Params: P("MODE", 1, "UNITS", 1)}, {Harness: "IdentConfined", Params: P("MODE", 1, "UNITS", 2)},
+	}
+}
+
 func valueRuns(thorough bool) []hrun {
 	r := []hrun{
 		{Harness: "ValueConfined", Params: P("MODE", 0, "UNITS", 1)}, {Harness: "ValueConfined", Params: P("MODE", 0, "UNITS", 2)}, {Harness: "ValueConfined", Params: P("MODE", 0, "UNITS", 3)},
@@ -138,7 +156,11 @@ func chainRuns() []hrun {
 	r := []hrun{{Harness: "TreeTotality", Params: P("D", 1)}}
 	for sh := 0; sh < 8; sh++ {
 		r = append(r, hrun{Harness: "ParseChain", Params: P("N", 32, "SHAPE", sh)})
+		if sh == 4 || sh == 5 { // nesting deeper than the usual fixed-size tables (32, 64)
+			r = append(r, hrun{Harness: "ParseChain", Params: P("N", 70, "SHAPE", sh)})
+		}
 	}
+	r = append(r, hrun{Harness: "ParseChain", Params: P("N", 40, "SHAPE", 8)}) // nested field groups
 	return r
 }
 
@@ -175,8 +197,8 @@ var props = map[string]propCfg{
 		Outside:  "longer inputs; asymptotic running time; symbolic decimal floats (cut); JSON encoding (see C12)",
 	},
 	"C02": {
-		Quick:    withOnly(append(sqlRuns(false, 0), identRuns(false)...), c02ids, false),
-		Thorough: withOnly(append(sqlRuns(true, 0), identRuns(true)...), c02ids, false),
+		Quick:    withOnly(append(append(sqlRuns(false, 0), identRuns(false)...), quotedValueRuns(false)...), c02ids, false),
+		Thorough: withOnly(append(append(sqlRuns(true, 0), identRuns(true)...), quotedValueRuns(true)...), c02ids, false),
 		Bounds:   "every leaf form of the renderable language (49 forms: equality, comparisons, inclusive/exclusive/open ranges over ints, strings and floats, lists, wildcards incl. escaped characters, escaped wildcards, underscore/dot/dash and runs of wildcards, regexps incl. one ending in an escaped backslash, quoted strings incl. three-byte runes and U+FFFD, NaN/Inf as values and as range bounds, decimals with 9 significant digits, integers beyond 2^53) with symbolic field names and values; boolean trees of depth <= 2 over them; field names carrying arbitrary bytes through escapes (<= 2/3 units) or quoted phrases (<= 2/3 bytes, all 256 values); inline and parameterized",
 		Outside:  "identifiers longer than 63 bytes; values longer than the hole widths; PostgreSQL settings other than standard_conforming_strings=on; the SQL fragment is parsed by a model of PostgreSQL's grammar (validated against pg_query natively)",
 	},
@@ -187,14 +209,15 @@ var props = map[string]propCfg{
 		Outside:  "NULLs; collations other than bytewise; floats other than the listed constants; regexp meaning; SIMILAR TO patterns containing regex metacharacters; ranges whose bounds have different types; field groups that contain a pattern; deeper trees",
 	},
 	"C04": {
-		Quick:    withOnly(append(append(sqlRuns(false, 1), indepRuns(false)...), valueRuns(false)...), c04ids, false),
-		Thorough: withOnly(append(append(sqlRuns(true, 1), indepRuns(true)...), valueRuns(true)...), c04ids, false),
+		Quick:    withOnly(append(append(append(sqlRuns(false, 1), indepRuns(false)...), valueRuns(false)...), identOutcomeRuns()...), c04ids, false),
+		Thorough: withOnly(append(append(append(sqlRuns(true, 1), indepRuns(true)...), valueRuns(true)...), identOutcomeRuns()...), c04ids, false),
 		Bounds:   "as C03, plus two independent instances of the same query shape (2-safety) for every leaf form and for trees of depth 1 (quick) / 2 (thorough)",
 		Outside:  "value kinds other than int, string, the listed floats; deeper trees",
 	},
 	"C05": {
 		Quick: []hrun{
 			{Harness: "TreeRoundTrip", Params: P("D", 1, "LEAVES", 1, "VARIANT", 0)},
+			{Harness: "TreeRoundTrip", Params: P("D", 1, "LEAVES", 12, "VARIANT", 0)}, {Harness: "TreeRoundTrip", Params: P("D", 1, "LEAVES", 12, "VARIANT", 1)},
 			{Harness: "TreeRoundTrip", Params: P("D", 1, "LEAVES", 1, "VARIANT", 1)},
 			{Harness: "TreeRoundTrip", Params: P("D", 1, "LEAVES", 1, "VARIANT", 2)},
 			{Harness: "TreeRoundTrip", Params: P("D", 2, "LEAVES", 0, "VARIANT", 0)},
@@ -206,6 +229,7 @@ var props = map[string]propCfg{
 			{Harness: "TreeRoundTrip", Params: P("D", 3, "LEAVES", 3, "OPS", 4, "VARIANT", 0)}, {Harness: "TreeRoundTrip", Params: P("D", 2, "LEAVES", 0, "OPS", 3, "VARIANT", 0)},
 			{Harness: "TreeRoundTrip", Params: P("D", 3, "LEAVES", 3, "OPS", 1, "VARIANT", 0)}, {Harness: "TreeRoundTrip", Params: P("D", 3, "LEAVES", 3, "OPS", 2, "VARIANT", 0)},
 			{Harness: "TreeRoundTrip", Params: P("D", 1, "LEAVES", 1, "VARIANT", 0)},
+			{Harness: "TreeRoundTrip", Params: P("D", 1, "LEAVES", 12, "VARIANT", 0)}, {Harness: "TreeRoundTrip", Params: P("D", 1, "LEAVES", 12, "VARIANT", 1)},
 			{Harness: "TreeRoundTrip", Params: P("D", 1, "LEAVES", 1, "VARIANT", 1)},
 			{Harness: "TreeRoundTrip", Params: P("D", 1, "LEAVES", 1, "VARIANT", 2)},
 			{Harness: "TreeRoundTrip", Params: P("D", 2, "LEAVES", 0, "VARIANT", 0)},
@@ -223,8 +247,8 @@ var props = map[string]propCfg{
 		Outside:  "longer sequences; literal contents outside the narrow shape classes (typed values of arbitrary words are covered by C08 and the K=1 wide slot of C01)",
 	},
 	"C07": {
-		Quick:    []hrun{{Harness: "TreeJuxtapose", Params: P("D", 2, "LEAVES", 0), InfoOnly: []string{"juxt-accepted"}}, {Harness: "TreeJuxtapose", Params: P("D", 1, "LEAVES", 1), InfoOnly: []string{"juxt-accepted"}}, {Harness: "TreeJuxtapose", Params: P("D", 3, "LEAVES", 3, "OPS", 1), InfoOnly: []string{"juxt-accepted"}}, {Harness: "TreeJuxtapose", Params: P("D", 2, "LEAVES", 0, "OPS", 3), InfoOnly: []string{"juxt-accepted"}}, {Harness: "TreeJuxtapose", Params: P("D", 2, "LEAVES", 9, "OPS", 2), InfoOnly: []string{"juxt-accepted"}}, {Harness: "TreeJuxtapose", Params: P("D", 2, "LEAVES", 10, "OPS", 2), InfoOnly: []string{"juxt-accepted"}}, {Harness: "TreeJuxtapose", Params: P("D", 2, "LEAVES", 11, "OPS", 1, "ONEDIGIT", 1), InfoOnly: []string{"juxt-accepted"}}},
-		Thorough: []hrun{{Harness: "TreeJuxtapose", Params: P("D", 2, "LEAVES", 0), InfoOnly: []string{"juxt-accepted"}}, {Harness: "TreeJuxtapose", Params: P("D", 1, "LEAVES", 1), InfoOnly: []string{"juxt-accepted"}}, {Harness: "TreeJuxtapose", Params: P("D", 3, "LEAVES", 3, "OPS", 1), InfoOnly: []string{"juxt-accepted"}}, {Harness: "TreeJuxtapose", Params: P("D", 3, "LEAVES", 3, "OPS", 2), InfoOnly: []string{"juxt-accepted"}}, {Harness: "TreeJuxtapose", Params: P("D", 2, "LEAVES", 2), InfoOnly: []string{"juxt-accepted"}}, {Harness: "TreeJuxtapose", Params: P("D", 2, "LEAVES", 9, "OPS", 2), InfoOnly: []string{"juxt-accepted"}}, {Harness: "TreeJuxtapose", Params: P("D", 2, "LEAVES", 10, "OPS", 2), InfoOnly: []string{"juxt-accepted"}}, {Harness: "TreeJuxtapose", Params: P("D", 2, "LEAVES", 11, "OPS", 1, "ONEDIGIT", 1), InfoOnly: []string{"juxt-accepted"}}},
+		Quick:    []hrun{{Harness: "TreeJuxtapose", Params: P("D", 2, "LEAVES", 0), InfoOnly: []string{"juxt-accepted"}}, {Harness: "TreeJuxtapose", Params: P("D", 1, "LEAVES", 1), InfoOnly: []string{"juxt-accepted"}}, {Harness: "TreeJuxtapose", Params: P("D", 3, "LEAVES", 3, "OPS", 1), InfoOnly: []string{"juxt-accepted"}}, {Harness: "TreeJuxtapose", Params: P("D", 2, "LEAVES", 0, "OPS", 3), InfoOnly: []string{"juxt-accepted"}}, {Harness: "TreeJuxtapose", Params: P("D", 2, "LEAVES", 9, "OPS", 2), InfoOnly: []string{"juxt-accepted"}}, {Harness: "TreeJuxtapose", Params: P("D", 2, "LEAVES", 10, "OPS", 2), InfoOnly: []string{"juxt-accepted"}}, {Harness: "TreeJuxtapose", Params: P("D", 2, "LEAVES", 11, "OPS", 1, "ONEDIGIT", 1), InfoOnly: []string{"juxt-accepted"}}, {Harness: "TreeJuxtapose", Params: P("D", 2, "GROUP", 1, "DF", 1), InfoOnly: []string{"juxt-accepted"}}, {Harness: "TreeJuxtapose", Params: P("D", 3, "GROUP", 1, "DF", 1), InfoOnly: []string{"juxt-accepted"}}, {Harness: "TreeJuxtapose", Params: P("D", 3, "GROUP", 1, "DF", 0), InfoOnly: []string{"juxt-accepted"}}},
+		Thorough: []hrun{{Harness: "TreeJuxtapose", Params: P("D", 2, "LEAVES", 0), InfoOnly: []string{"juxt-accepted"}}, {Harness: "TreeJuxtapose", Params: P("D", 1, "LEAVES", 1), InfoOnly: []string{"juxt-accepted"}}, {Harness: "TreeJuxtapose", Params: P("D", 3, "LEAVES", 3, "OPS", 1), InfoOnly: []string{"juxt-accepted"}}, {Harness: "TreeJuxtapose", Params: P("D", 3, "LEAVES", 3, "OPS", 2), InfoOnly: []string{"juxt-accepted"}}, {Harness: "TreeJuxtapose", Params: P("D", 2, "LEAVES", 2), InfoOnly: []string{"juxt-accepted"}}, {Harness: "TreeJuxtapose", Params: P("D", 2, "LEAVES", 9, "OPS", 2), InfoOnly: []string{"juxt-accepted"}}, {Harness: "TreeJuxtapose", Params: P("D", 2, "LEAVES", 10, "OPS", 2), InfoOnly: []string{"juxt-accepted"}}, {Harness: "TreeJuxtapose", Params: P("D", 2, "LEAVES", 11, "OPS", 1, "ONEDIGIT", 1), InfoOnly: []string{"juxt-accepted"}}, {Harness: "TreeJuxtapose", Params: P("D", 2, "GROUP", 1, "DF", 1), InfoOnly: []string{"juxt-accepted"}}, {Harness: "TreeJuxtapose", Params: P("D", 3, "GROUP", 1, "DF", 1), InfoOnly: []string{"juxt-accepted"}}, {Harness: "TreeJuxtapose", Params: P("D", 3, "GROUP", 1, "DF", 0), InfoOnly: []string{"juxt-accepted"}}},
 		Bounds:   "all trees as in C05 that contain an AND node, each AND node in turn written as juxtaposition; both texts parsed by the real parser; extra alphabets: comparisons, bare numbers, exclusive ranges, field groups",
 		Outside:  "several gaps at once; deeper trees; a juxtaposition the parser rejects is informational (eligibility is defined by the parser accepting the text)",
 	},
@@ -257,13 +281,13 @@ var props = map[string]propCfg{
 			{Harness: "TreeDefaultField", Params: P("D", 1, "LEAVES", 1, "DFKIND", 0, "VARIANT", 1)},
 			{Harness: "TreeDefaultField", Params: P("D", 3, "LEAVES", 6, "OPS", 1, "DFKIND", 0)},
 			{Harness: "TreeDefaultField", Params: P("D", 1, "LEAVES", 7, "DFKIND", 0, "VARIANT", 2)},
-			{Harness: "TreeDefaultField", Params: P("D", 1, "LEAVES", 1, "DFKIND", 2)}, {Harness: "TreeDefaultField", Params: P("D", 1, "LEAVES", 1, "DFKIND", 3)},
+			{Harness: "TreeDefaultField", Params: P("D", 1, "LEAVES", 1, "DFKIND", 2)}, {Harness: "TreeDefaultField", Params: P("D", 1, "LEAVES", 1, "DFKIND", 3)}, {Harness: "TreeDefaultField", Params: P("D", 1, "LEAVES", 0, "DFKIND", 4)},
 			{Harness: "GroupDefaultField", Params: P("GD", 1)}, {Harness: "GroupDefaultField", Params: P("GD", 2, "GFORMS", 1)}, {Harness: "GroupDefaultField", Params: P("GD", 3, "GFORMS", 1)},
 		},
 		Thorough: []hrun{
 			{Harness: "GroupDefaultField", Params: P("GD", 1)}, {Harness: "GroupDefaultField", Params: P("GD", 2)}, {Harness: "GroupDefaultField", Params: P("GD", 3, "GFORMS", 1)},
 			{Harness: "TreeDefaultField", Params: P("D", 1, "LEAVES", 7, "DFKIND", 0, "VARIANT", 2)}, {Harness: "TreeDefaultField", Params: P("D", 2, "LEAVES", 0, "DFKIND", 0, "VARIANT", 2)},
-			{Harness: "TreeDefaultField", Params: P("D", 1, "LEAVES", 1, "DFKIND", 2)}, {Harness: "TreeDefaultField", Params: P("D", 1, "LEAVES", 1, "DFKIND", 3)},
+			{Harness: "TreeDefaultField", Params: P("D", 1, "LEAVES", 1, "DFKIND", 2)}, {Harness: "TreeDefaultField", Params: P("D", 1, "LEAVES", 1, "DFKIND", 3)}, {Harness: "TreeDefaultField", Params: P("D", 1, "LEAVES", 0, "DFKIND", 4)},
 			{Harness: "TreeDefaultField", Params: P("D", 3, "LEAVES", 6, "OPS", 1, "DFKIND", 0)}, {Harness: "TreeDefaultField", Params: P("D", 3, "LEAVES", 6, "OPS", 2, "DFKIND", 0)},
 			{Harness: "TreeDefaultField", Params: P("D", 1, "LEAVES", 1, "DFKIND", 0, "VARIANT", 1)}, {Harness: "TreeDefaultField", Params: P("D", 2, "LEAVES", 0, "DFKIND", 0, "VARIANT", 1)},
 			{Harness: "TreeDefaultField", Params: P("D", 1, "LEAVES", 1, "DFKIND", 0)}, {Harness: "TreeDefaultField", Params: P("D", 1, "LEAVES", 1, "DFKIND", 1)},
@@ -276,13 +300,17 @@ var props = map[string]propCfg{
 		Quick: []hrun{
 			{Harness: "QuoteVerbatim", Params: P("N", 0)}, {Harness: "QuoteVerbatim", Params: P("N", 1)}, {Harness: "QuoteVerbatim", Params: P("N", 2)}, {Harness: "QuoteVerbatim", Params: P("N", 3)},
 			{Harness: "EscapeVerbatim", Params: P("N", 1)}, {Harness: "EscapeVerbatim", Params: P("N", 2)}, {Harness: "EscapeVerbatim", Params: P("N", 3)},
+			{Harness: "QuoteVerbatim", Params: P("N", 1, "CTXV", 1)}, {Harness: "QuoteVerbatim", Params: P("N", 2, "CTXV", 1)}, {Harness: "QuoteVerbatim", Params: P("N", 3, "CTXV", 1)},
+			{Harness: "EscapeVerbatim", Params: P("N", 1, "CTXV", 1)}, {Harness: "EscapeVerbatim", Params: P("N", 2, "CTXV", 1)}, {Harness: "EscapeVerbatim", Params: P("N", 0, "MB", 1)}, {Harness: "EscapeVerbatim", Params: P("N", 1, "MB", 1)}, {Harness: "EscapeVerbatim", Params: P("N", 2, "MB", 1)},
 		},
 		Thorough: []hrun{
 			{Harness: "QuoteVerbatim", Params: P("N", 0)}, {Harness: "QuoteVerbatim", Params: P("N", 1)}, {Harness: "QuoteVerbatim", Params: P("N", 2)}, {Harness: "QuoteVerbatim", Params: P("N", 3)}, {Harness: "QuoteVerbatim", Params: P("N", 4)},
 			{Harness: "EscapeVerbatim", Params: P("N", 1)}, {Harness: "EscapeVerbatim", Params: P("N", 2)}, {Harness: "EscapeVerbatim", Params: P("N", 3)}, {Harness: "EscapeVerbatim", Params: P("N", 4)},
+			{Harness: "QuoteVerbatim", Params: P("N", 1, "CTXV", 1)}, {Harness: "QuoteVerbatim", Params: P("N", 2, "CTXV", 1)}, {Harness: "QuoteVerbatim", Params: P("N", 3, "CTXV", 1)}, {Harness: "QuoteVerbatim", Params: P("N", 4, "CTXV", 1)},
+			{Harness: "EscapeVerbatim", Params: P("N", 1, "CTXV", 1)}, {Harness: "EscapeVerbatim", Params: P("N", 2, "CTXV", 1)}, {Harness: "EscapeVerbatim", Params: P("N", 3, "CTXV", 1)}, {Harness: "EscapeVerbatim", Params: P("N", 0, "MB", 1)}, {Harness: "EscapeVerbatim", Params: P("N", 1, "MB", 1)}, {Harness: "EscapeVerbatim", Params: P("N", 2, "MB", 1)}, {Harness: "EscapeVerbatim", Params: P("N", 3, "MB", 1)},
 		},
-		Bounds:  "quoting: all byte strings w of length <= 3 (quick) / <= 4 (thorough) that are valid UTF-8 without '\"' and NUL, every byte value; escaping: all ASCII texts w of length <= 3/4 whose first byte is not a digit, sign, dot or i/n (numbers, inf, nan) and that do not spell AND/OR/NOT/TO",
-		Outside: "longer texts; non-ASCII texts in the escaping clause; single-quoted phrases",
+		Bounds:  "quoting: all byte strings w of length <= 3 (quick) / <= 4 (thorough) that are valid UTF-8 without '\"' and NUL, every byte value; escaping: all ASCII texts w of length <= 3/4 whose first byte is not a digit, sign, dot or i/n (numbers, inf, nan) and that do not spell AND/OR/NOT/TO; both clauses also for a free-standing term under AND with a default field (a:b AND <term>)",
+		Outside: "longer texts; non-ASCII texts in the escaping clause other than one multi-byte character (a letter, a dash, a currency sign, a section sign, an emoji) in second position; single-quoted phrases",
 	},
 	"C10": {
 		Quick:    withOnly(append(parseRuns(false), ctxRuns(false)...), c10ids, false),
@@ -300,11 +328,11 @@ var props = map[string]propCfg{
 		Quick: withOnly([]hrun{
 			{Harness: "JSONBytes", Params: P("N", 0)}, {Harness: "JSONBytes", Params: P("N", 1)}, {Harness: "JSONBytes", Params: P("N", 2)}, {Harness: "JSONBytes", Params: P("N", 3)}, {Harness: "JSONBytes", Params: P("N", 4)}, {Harness: "JSONBytes", Params: P("N", 5)},
 			{Harness: "JSONDoc", Params: P("D", 0, "LITE", 1)},
-			{Harness: "JSONDoc", Params: P("D", 0, "LITE", 1, "RB", 1, "BSHAPE", 1)},
+			{Harness: "JSONDoc", Params: P("D", 0, "LITE", 1, "RB", 1, "BSHAPE", 1)}, {Harness: "JSONDoc", Params: P("D", 0, "BS", 1)}, {Harness: "JSONDoc", Params: P("D", 0, "NEST", 1)},
 		}, nil, true),
 		Thorough: withOnly([]hrun{
 			{Harness: "JSONBytes", Params: P("N", 0)}, {Harness: "JSONBytes", Params: P("N", 1)}, {Harness: "JSONBytes", Params: P("N", 2)}, {Harness: "JSONBytes", Params: P("N", 3)}, {Harness: "JSONBytes", Params: P("N", 4)}, {Harness: "JSONBytes", Params: P("N", 5)}, {Harness: "JSONBytes", Params: P("N", 6)},
-			{Harness: "JSONDoc", Params: P("D", 0)}, {Harness: "JSONDoc", Params: P("D", 0, "RB", 1, "BSHAPE", 1)}, {Harness: "JSONDoc", Params: P("D", 1, "LITE", 1), Seconds: 1200},
+			{Harness: "JSONDoc", Params: P("D", 0)}, {Harness: "JSONDoc", Params: P("D", 0, "RB", 1, "BSHAPE", 1)}, {Harness: "JSONDoc", Params: P("D", 0, "BS", 1)}, {Harness: "JSONDoc", Params: P("D", 0, "NEST", 1)}, {Harness: "JSONDoc", Params: P("D", 1, "LITE", 1), Seconds: 1200},
 		}, nil, true),
 		Bounds:  "all byte strings of length <= 5 (quick) / 6 (thorough) decoded into an Expression; all compact documents {left?, operator?, right?, distance/power/boundaries/extra?} whose members are strings of 0-2 symbolic bytes, numbers, null, true, arrays, range-boundary objects (complete, without inclusive, or with min or max occurring only below another member), wrongly typed values, operator names from the table or arbitrary 2-byte strings or a number (nested objects to depth 1 in thorough); decoded expressions that validate go through String, %#v, Marshal, Render, RenderParam",
 		Outside: "encoding/json replaced by the stand-in (see C12); object keys with non-ASCII bytes (cut); documents deeper than the bound; white space between tokens beyond what the byte tier generates",
@@ -313,13 +341,15 @@ var props = map[string]propCfg{
 		Quick: []hrun{
 			{Harness: "Purity", Params: P("SRC", 0, "D", 1, "LEAVES", 8, "DF", 0)}, {Harness: "Purity", Params: P("SRC", 0, "D", 1, "LEAVES", 8, "DF", 1)},
 			{Harness: "Purity", Params: P("SRC", 1, "K", 2, "DF", 0)},
+			{Harness: "PurityDoc", Params: P("D", 0, "LITE", 1, "PW", 1)},
 		},
 		Thorough: []hrun{
 			{Harness: "Purity", Params: P("SRC", 0, "D", 1, "LEAVES", 8, "DF", 0)}, {Harness: "Purity", Params: P("SRC", 0, "D", 1, "LEAVES", 8, "DF", 1)},
 			{Harness: "Purity", Params: P("SRC", 0, "D", 2, "LEAVES", 0, "DF", 0)}, {Harness: "Purity", Params: P("SRC", 0, "D", 2, "LEAVES", 0, "DF", 1)},
 			{Harness: "Purity", Params: P("SRC", 1, "K", 2, "DF", 0)}, {Harness: "Purity", Params: P("SRC", 1, "K", 3, "DF", 0)},
+			{Harness: "PurityDoc", Params: P("D", 0, "LITE", 1, "PW", 1)}, {Harness: "PurityDoc", Params: P("D", 0, "PW", 1)},
 		},
-		Bounds:  "every path of: trees of depth <= 1 over 19 leaf forms and depth <= 2 over 3 leaf forms, token sequences of <= 2 (quick) / 3 (thorough) tokens; per path: Parse twice (and a call without options before and after calls with a default field), String, %#v, Validate twice, Render twice, RenderParam three times, json.Marshal twice, ToPostgres twice, error texts compared, a private driver customised; monitors: package-level variables of the module unchanged at path end, shared expression unchanged after each consumer, no map iteration / goroutine / channel / pointer formatting executed after the epoch",
+		Bounds:  "every path of: trees of depth <= 1 over 19 leaf forms and depth <= 2 over 3 leaf forms, token sequences of <= 2 (quick) / 3 (thorough) tokens; per path: Parse twice (and a call without options before and after calls with a default field), String, %#v, Validate twice, Render twice, RenderParam three times, json.Marshal twice, ToPostgres twice, error texts compared, a private driver customised; the same clauses on decoded documents (unknown operators, zero / negative powers and distances, members of the wrong kind); monitors: package-level variables of the module unchanged at path end, shared expression unchanged after each consumer, no map iteration / goroutine / channel / pointer formatting executed after the epoch",
 		Outside: "schedules are not explored: absence of writes to shared state and of nondeterminism sources on every explored path is the argument for race freedom and schedule independence (Go memory model); inputs beyond the bounds",
 	},
 	"C15": {
